@@ -9,8 +9,9 @@ exports them with the expected decoding.  Each element is put through the real p
 
 and the resulting Case is sent through the requests transport (loopback socket server), the WSGI transport (environ captured)
 and the ASGI transport (scope captured).  Every recorded request is judged by spec/WireJudge.tla with Wire's decoders
-(percent-decoding, UTF-8, JSON, style tables).  An independent Python reading of the same rules (urllib / json based) is
-compared verdict by verdict with TLC's; any difference is a machinery failure, never a verdict.
+(percent-decoding, UTF-8, JSON, style tables; multipart/form-data bodies are decoded part by part with the RFC 2046 / RFC 7578
+reading `MultipartVerdict`: one part per field, an array-valued field = one part per item).  An independent Python reading of the same rules (urllib / json based) is
+compared verdict by verdict with TLC's (multipart: the standard library's MIME parser); any difference is a machinery failure, never a verdict.
 
 Signature of a violation (DESIGN Appendix E), computed from the failing descriptor only:
   C06:<aspect>:<pipeline>:<dialect>:<location>:<style>:explode=<e>:<type>:base=<b>:tmpl=<t>:<value feature>:<transports>
@@ -35,10 +36,14 @@ BASE_PATH = {1: "", 2: "/", 3: "/api", 4: "/api/", 5: "/api/v1", 6: "/srv", 7: "
 URL_TMPL = {1: "/x/{p}", 2: "/x/{p}/y", 3: "/{p}"}
 MEDIA = {"json": "application/json", "form": "application/x-www-form-urlencoded", "text": "text/plain",
          "multipart": "multipart/form-data", "multipart-file": "multipart/form-data", "multipart-raw": "multipart/form-data",
+         "multipart-array": "multipart/form-data",
          "yaml": "application/yaml", "xml": "application/xml", "binary": "application/octet-stream",
          "json-suffix": "application/vnd.api+json", "form-list": "application/x-www-form-urlencoded"}
-BODY_PATH = {"multipart-file": "/bodyf", "multipart-raw": "/bodyr"}
-CTYPE_ONLY = ("multipart", "multipart-file", "multipart-raw", "yaml", "xml", "binary")   # payload encoding outside the fragment
+BODY_PATH = {"multipart-file": "/bodyf", "multipart-raw": "/bodyr", "multipart-array": "/bodya"}
+CTYPE_ONLY = ("multipart-raw", "yaml", "xml", "binary")   # payload encoding outside the fragment
+MULTIPART_FORMS = ("multipart", "multipart-file", "multipart-array")   # judged part by part (Wire.tla MultipartVerdict)
+A_SCHEMA = {"multipart": {"type": "string"}, "multipart-file": {"type": "string", "format": "binary"},
+            "multipart-array": {"type": "array", "items": {"type": "string"}}}   # what the media kind declares for the field `a`
 CONF_HEADERS = {"X-Conf": "v 1;q=a"}
 TRANSPORTS = ("requests", "wsgi", "asgi")
 ASPECTS = ("url", "param", "extra", "hdrs", "conf", "id", "host", "method", "ctype", "body", "hist")
@@ -67,6 +72,25 @@ def value_py(v: dict):
     if v["k"] == "arr":
         return items
     return dict(zip([text(k) for k in v["keys"]], items))
+
+
+def body_py(el: dict):
+    """The payload of a body element.  For "multipart-array" the pairs with the repeated key `a` are the items of the one
+    array-valued field a (Wire.tla MultipartArrVals): <<a: x, a: y, b: z>> is the form {a: [x, y], b: z}."""
+    v = el["val"]
+    if el["media"] != "multipart-array":
+        return value_py(v)
+    out: dict = {}
+    for k, p in zip(v["keys"], v["items"]):
+        if text(k) == "a":
+            out.setdefault("a", []).append(prim_py(p))
+        else:
+            out[text(k)] = prim_py(p)
+    return out
+
+
+def shown_py(el: dict):
+    return body_py(el) if el["kind"] == "body" else value_py(el["val"])
 
 
 def def_key(d: dict) -> tuple:
@@ -136,7 +160,7 @@ def build_doc(dialect: str) -> dict:
                                                {"name": "c", "in": "cookie", "schema": {"type": "string"}},
                                                {"name": "X-H", "in": "header", "schema": {"type": "string"}}], "responses": OK_RESP}}
     paths["/bodyr"] = {"post": {"requestBody": {"required": True, "content": {MEDIA["multipart"]: {"schema": {"type": "string"}}}}, "responses": OK_RESP}}
-    for path, a_schema in (("/body", {"type": "string"}), ("/bodyf", {"type": "string", "format": "binary"})):
+    for path, a_schema in (("/body", A_SCHEMA["multipart"]), ("/bodyf", A_SCHEMA["multipart-file"]), ("/bodya", A_SCHEMA["multipart-array"])):
         content = paths.setdefault(path, {"post": {"requestBody": {"required": True, "content": {}}, "responses": OK_RESP}})
         content["post"]["requestBody"]["content"][MEDIA["multipart"]] = {
             "schema": {"type": "object", "properties": {"a": a_schema, "b": {"type": "string"}}}}
@@ -296,8 +320,8 @@ def pipeline_generate_body(el: dict, value):
     media = el["media"]
     shown = [{k: v} for k, v in value.items()] if media == "form-list" else value
     schema = _pinned_schema(shown)
-    if media in ("multipart", "multipart-file"):
-        schema["properties"] = {"a": {"type": "string", "format": "binary"} if media == "multipart-file" else {"type": "string"}, "b": {"type": "string"}}
+    if media in MULTIPART_FORMS:
+        schema["properties"] = {"a": copy.deepcopy(A_SCHEMA[media]), "b": {"type": "string"}}
     raw = {"openapi": "3.0.2", "info": {"title": "t", "version": "1"},
            "paths": {"/gb": {"post": {"requestBody": {"required": True, "content": {MEDIA[media]: {"schema": schema}}}, "responses": OK_RESP}}}}
     s = schemathesis.openapi.from_dict(raw).configure(base_url="http://127.0.0.1:1/api")
@@ -418,7 +442,7 @@ def send(el: dict, kwargs: dict, transport: str, pipe: str, case=None, step: str
 def run_element(el: dict) -> list[dict]:
     """All (pipeline, transport) observations of one element: [{pipe, transport, kwargs, obs | error | filtered}]."""
     out = []
-    value = value_py(el["val"])
+    value = body_py(el) if el["kind"] == "body" else value_py(el["val"])
     d = el["def"]
     pipes: list[tuple[str, dict | None]] = []
     if el["kind"] == "hist":
@@ -876,6 +900,37 @@ def media_type_of(ct: list[int]) -> list[int]:
     return cps(text(ct).split(";", 1)[0].strip(" \t").translate({c: c + 32 for c in range(65, 91)}))
 
 
+def multipart_fields(ct: list[int], body: list[int]):
+    """Independent reading of a multipart body with the standard library's MIME parser: [(field name, content text)] in wire
+    order, or None when it is not a well-formed multipart message under the Content-Type's boundary."""
+    from email.parser import BytesParser
+    from email.policy import HTTP
+
+    try:
+        head = text(ct).encode("latin-1")
+        msg = BytesParser(policy=HTTP).parsebytes(b"Content-Type: " + head + b"\r\n\r\n" + bytes(body))
+        if not msg.is_multipart() or msg.defects or not msg.get_boundary():
+            return None
+        out = []
+        for part in msg.iter_parts():
+            name = part.get_param("name", header="content-disposition")
+            if part.defects or not isinstance(name, str):
+                return None
+            out.append((name, part.get_payload(decode=True).decode("utf-8")))
+        return out
+    except (ValueError, LookupError, AttributeError):
+        return None
+
+
+def py_multipart_verdict(o: dict, bval: dict) -> str:
+    got = multipart_fields(o["ctype"], o["body"])
+    if got is None:
+        return "F"
+    want = [(text(k), py_coerce(x)) for k, x in zip(bval["keys"], bval["items"])]
+    names = {n for n, _ in got} | {n for n, _ in want}
+    return "T" if all([t for n, t in got if n == x] == [t for n, t in want if n == x] for x in names) else "F"
+
+
 STANDARD = {"host", "user-agent", "accept", "accept-encoding", "connection", "content-length", "content-type", "transfer-encoding"}
 
 
@@ -920,6 +975,8 @@ def py_judge(o: dict, fragment: str, want: dict) -> dict:
         body = "U"
     elif media == "none":
         body = "T" if not o["body"] else "F"
+    elif media in MULTIPART_FORMS:
+        body = py_multipart_verdict(o, bval)
     elif media in ("json", "json-suffix"):
         j = typed_json(bt) if bt is not None else None
         body = "T" if j is not None and same_typed(j, typed(bval)) else "F"
@@ -1175,7 +1232,7 @@ def emit(out: Outcome, cases: list[dict], results: list, fails: list[dict], judg
         out.violations.append(Violation(
             "C06:%s:%s:%s:%s" % (group, label, feature, tr),
             "%s not as the case says (%s): %s value %r -> case %s -> wire [%s] on %s" % (
-                aspect, f0["detail"], ":".join(dims), value_py(el["val"]), f0.get("kwargs", ""), wire, ",".join(trs)),
+                aspect, f0["detail"], ":".join(dims), shown_py(el), f0.get("kwargs", ""), wire, ",".join(trs)),
             {"element": el, "pipe": pipe, "aspect": aspect.split(":")[0], "transports": trs},
         ))
 
@@ -1237,7 +1294,7 @@ def run(ctx: Ctx) -> Outcome:
         elif el["kind"] != "body":
             judged_param += 1
         if v["body"] == "U":
-            why = ("multipart-body-encoding" if el["media"].startswith("multipart") else "payload-encoding-outside-fragment"
+            why = ("multipart-wrapped-non-object" if el["media"].startswith("multipart") else "payload-encoding-outside-fragment"
                    if el["media"] in CTYPE_ONLY else "form-body-bool-null")
             skipped[why] = skipped.get(why, 0) + 1
         if value_features(el["val"]):
@@ -1294,7 +1351,7 @@ def run(ctx: Ctx) -> Outcome:
         "the loopback http.server, werkzeug's test client environ and starlette-testclient's scope report the request as sent",
         "feeding an enumerated value into get_parameters_strategy in place of hypothesis-jsonschema's draw exercises the same serializer / "
         "filter / quoting chain as generation (cross-checked on a sample against operation.as_strategy with enum-pinned schemas)",
-        "multipart, XML, YAML and binary bodies, non-ASCII header/cookie values, cookie values outside RFC 6265 cookie-octets, empty arrays/objects, "
+        "XML, YAML and binary bodies, a non-object value wrapped as multipart, multipart field names that are not plain tokens, non-ASCII header/cookie values, cookie values outside RFC 6265 cookie-octets, empty arrays/objects, "
         "items containing the style's delimiter and exploded cookie arrays/objects are outside the judged fragment (counted as skipped)",
     ]
     return out
@@ -1442,7 +1499,7 @@ def replay(ctx: Ctx, data: dict) -> Outcome:
                 ob = r["obs"]
                 out.violations.append(Violation(
                     "C06:" + site_of(el, data["pipe"], a), "%s=%s on %s: value %r -> case %s -> %s %s?%s hdr=%r cookie=%r body=%r" % (
-                        a, v[a], r["transport"], value_py(el["val"]), r["kwargs"], ob["method"], text(ob["path"]), text(ob["query"]),
+                        a, v[a], r["transport"], shown_py(el), r["kwargs"], ob["method"], text(ob["path"]), text(ob["query"]),
                         text(ob["hval"]), text(ob["cookie"]), bytes(ob["body"])[:60]), data))
     return out
 
@@ -1462,13 +1519,23 @@ def selftest(ctx: Ctx) -> bool:
            dict(good, hnames=good["hnames"] + ["x-extra"]),
            dict(good, query=cps("p=a%2Bb%2Ctrue")),       # '+' sent instead of the space
            dict(good, method="POST")]
-    # multipart: only the media type of the Content-Type is judged (boundary parameter ignored), the body never
+    # multipart: the media type of the Content-Type is judged (boundary parameter ignored) and the body part by part: an array-valued
+    # field is one part per item (any order of the fields, `filename` irrelevant); a list collapsed into one part is rejected
     nodef = {"dialect": "oas3", "loc": "none", "style": "default", "explode": "default", "type": "prim"}
     form = {"k": "obj", "items": [{"t": "str", "s": cps("a b"), "n": 0}], "keys": [cps("a")]}
     mp = dict(good, kind="body", media="multipart", val=form, method="POST", wantMethod="POST", tmpl=cps("/body"), path=cps("/api/body"),
-              query=[], body=list(b"--x--"), wantCtype=cps("multipart/form-data"), ctype=cps("Multipart/Form-Data; boundary=x"))
+              query=[], body=list(b'--x\r\nContent-Disposition: form-data; name="a"\r\n\r\na b\r\n--x--\r\n'),
+              wantCtype=cps("multipart/form-data"), ctype=cps("Multipart/Form-Data; boundary=x"))
     mp["def"] = nodef
-    obs += [mp, dict(mp, ctype=cps("application/x-www-form-urlencoded")), dict(mp, ctype=[])]
+    arr = {"k": "obj", "items": [{"t": "str", "s": cps(x), "n": 0} for x in ("x", "", "n")], "keys": [cps("a"), cps("a"), cps("b")]}
+    part = 'Content-Disposition: form-data; name="%s"%s\r\n\r\n%s\r\n'
+    ma = dict(mp, media="multipart-array", val=arr, ctype=cps('multipart/form-data; boundary="x"'),
+              body=list(("\r\n--x\r\n" + part % ("b", "", "n") + "--x\r\n" + part % ("a", '; filename="a"', "x")
+                         + '--x\r\nContent-Disposition: form-data; name="a"\r\n\r\n--x--\r\n').encode()))
+    obs += [mp, dict(mp, ctype=cps("application/x-www-form-urlencoded")), dict(mp, ctype=[]), ma,
+            dict(ma, body=list(("--x\r\n" + part % ("a", "", "['x', '']") + "--x\r\n" + part % ("b", "", "n") + "--x--\r\n").encode())),
+            dict(ma, body=list(("--x\r\n" + part % ("a", "", "") + "--x\r\n" + part % ("a", "", "x") + "--x\r\n" + part % ("b", "", "n") + "--x--\r\n").encode())),
+            dict(ma, body=list(("--x\r\n" + part % ("a", "", "x") + "--x\r\n" + part % ("a", "", "") + "--x\r\n" + part % ("b", "", "n")).encode()))]
     # history: a plain send of a case (q=a, c=1, X-H: h) must not carry an earlier call's `limit`, and must leave the case as it was
     hv = {"k": "prim", "items": [{"t": "str", "s": cps("a"), "n": 0}], "keys": []}
     hs = dict(good, kind="hist", val=hv, tmpl=cps("/items"), path=cps("/api/items"), query=cps("q=a"), step="plain", envloc="hist",
@@ -1477,16 +1544,14 @@ def selftest(ctx: Ctx) -> bool:
     obs += [hs, dict(hs, query=cps("q=a&limit=10")), dict(hs, mut=["cookies"]), dict(hs, cookie=cps("c=1; d=2"))]
     verdicts, _, _ = judge(ctx, obs, "selftest.json")
     got = [[a for a in ASPECTS if v[a].startswith("F")] for v in verdicts]
-    want = [[], ["param"], ["param"], ["url"], ["hdrs"], ["param"], ["method"], [], ["ctype"], ["ctype"], [], ["hist"], ["hist"], ["hist"]]
+    want = [[], ["param"], ["param"], ["url"], ["hdrs"], ["param"], ["method"], [], ["ctype", "body"], ["ctype", "body"],
+            [], ["body"], ["body"], ["body"], [], ["hist"], ["hist"], ["hist"]]   # collapsed list / items swapped / no close delimiter
     if got != want:
         print("selftest: judge verdicts", got, "expected", want)
         return False
     frag = "T"
     wantrec = {"k": "arr", "items": [cps("a b"), cps("true")], "keys": []}
     for o, v in zip(obs, verdicts):
-        if o["kind"] == "body" and v["body"] != "U":
-            print("selftest: multipart body judged", v)
-            return False
         pj = py_judge(o, frag, wantrec)
         if any(pj[a] != v[a] for a in ASPECTS):
             print("selftest: cross-check differs", pj, v)
